@@ -932,7 +932,10 @@ pub fn lifecycle<K: Kmer + Send + Sync>(sink: &Sink, r: &mut Rng, inp: &GInput) 
             }
         } else {
             let p = r.range(0, 2);
-            let cens: Vec<usize> = (0..cur.len()).filter(|_| r.chance(p, 6)).collect();
+            let mut cens: Vec<usize> = (0..cur.len()).filter(|_| r.chance(p, 6)).collect();
+            if r.chance(1, 2) {
+                r.shuffle(&mut cens);
+            }
             let desc = json!({"op":"lc_recompress","K":inp.k,"cur":nodes_json(&cur),"censor":cens,"fam":inp.fam,"reads":inp.reads});
             let case = sink.begin_case(&desc);
             let taken = std::mem::replace(&mut dbg, BaseGraph::new(inp.stranded).finish_serial());
